@@ -15,7 +15,7 @@
    uint64 converted to int; the property's "any number of successive picks" stays below 2^63). *)
 From Coq Require Import Permutation.
 From GocqlV Require Import Lib.Base Gen.Consts C11.Model C11.Spec
-  C11.Proofs1 C11.Proofs2 C11.Proofs3 C11.Proofs4 C11.Proofs5 C11.Proofs6 C11.Refuted.
+  C11.Proofs1 C11.Proofs2 C11.Proofs3 C11.Proofs4 C11.Proofs5 C11.Proofs6 C11.Refuted C11.Compose.
 
 (* 0. The one source constant the model uses (typed in Model.v) is the generated one. *)
 Theorem C11_node_up_is_source_constant : node_up = K.NodeUp.
@@ -205,6 +205,65 @@ Theorem C11_generator_frame : forall c s l s' o n,
 Proof. exact generator_frame. Qed.
 Print Assumptions C11_generator_frame.
 
+(* 14. Composition with C10 (replica placement), SimpleStrategy.  [pick_lookup ltb hostof m r t order] is the
+       query information of a Pick written with C10's model of what the real Pick looks up (replicasFor on
+       the keyspace's replica map m, GetHostForToken on the ring r); hostof maps C10's host numbers to host
+       records.  In any reachable state of a token-aware policy (no shuffling), for any ring in token order
+       and any token: the Pick that finds the token in simpleStrategy.replicaMap's map creates the token-aware
+       generator over CASSANDRA's natural endpoints (SimpleStrategy.calculateNaturalEndpoints, C10/Spec.v) in
+       Cassandra's order, and it offers: the up ones of them in the nearest tier, in that order; then (with
+       fallback) the up ones in farther tiers, nearer first; then every other up host by tier; no host twice. *)
+Theorem C11_simple_cassandra_replicas_first :
+  forall (T : Type) (ltb : T -> T -> bool) (hostof : Z -> host) c ls s outs up n rf r t,
+  (forall h, hid (hostof h) = h) -> C10.Proofs1.strict_total ltb -> C10.Proofs1.sorted_toks ltb r -> r <> [] ->
+  run c (sys_init c) ls = Some (s, outs) -> ctr_in_range (s_pol s) -> c_ta c = true -> c_shuffle c = false ->
+  let cassandra := C10.Spec.simple_natural_endpoints ltb rf r t in
+  let rs := map hostof cassandra in
+  let k := c_kind c in
+  let near := ups up (in_tier (host_tier k) 0 rs) in
+  let far := if c_nlrf c then concat (map (fun i => ups up (in_tier (host_tier k) i rs)) (seq 1 (max_tier k))) else [] in
+  let offered := spec_ta up (host_tier k) (max_tier k) (c_nlrf c) rs (plists (s_pol s)) (Z.to_nat (pctr (s_pol s) + 2)) in
+  step c s (LPick n (pick_lookup ltb hostof (C10.Model.simple_replica_map rf r) r t rs))
+    = Some (mkSys (s_pol s) (s_up s) ((n, ITA (ta_pick k (c_nlrf c) rs)) :: s_iters s), None)
+  /\ (exists st', yields (ta_step (c_nlrf c) up) (ta_pick k (c_nlrf c) rs, s_pol s) offered st'
+                  /\ forall up', ta_step (c_nlrf c) up' st' = (Nil, st'))
+  /\ exists rest, offered = near ++ far ++ rest
+       /\ tier_sorted (host_tier k) far /\ tier_sorted (host_tier k) rest
+       /\ (forall h, In h rest -> ~ In (hid h) (map hid (near ++ far)))
+       /\ only_up up offered /\ no_host_twice offered /\ complete up (concat (plists (s_pol s))) offered.
+Proof. exact simple_cassandra_replicas_first. Qed.
+Print Assumptions C11_simple_cassandra_replicas_first.
+
+(* 15. The same for NetworkTopologyStrategy: with m the map networkTopology.replicaMap builds (it never panics:
+       C10_nts_never_panics), whenever m has an entry for the token (it has none only when no ring token lies in
+       a data centre with replicas; Pick then walks the primary owner alone), the replicas the generator walks
+       are NetworkTopologyStrategy.calculateNaturalEndpoints, and the same order statement holds. *)
+Theorem C11_nts_cassandra_replicas_first :
+  forall (T : Type) (ltb : T -> T -> bool) (hostof : Z -> host) (info : Z -> C10.Model.hinfo)
+         (dcs : C10.Model.amap Z) (hosts : list Z) c ls s outs up n r m t tok reps,
+  (forall h, hid (hostof h) = h) -> C10.Proofs1.strict_total ltb ->
+  Forall (fun e => 0 <= snd e) dcs -> NoDup (map fst dcs) ->
+  C10.Proofs1.sorted_toks ltb r -> (forall h, In h hosts <-> In h (map snd r)) ->
+  C10.Model.nts_replica_map info dcs hosts r = C10.Model.Ok m ->
+  C10.Model.replicas_for ltb m t = Some (tok, reps) ->
+  run c (sys_init c) ls = Some (s, outs) -> ctr_in_range (s_pol s) -> c_ta c = true -> c_shuffle c = false ->
+  let rs := map hostof reps in
+  let k := c_kind c in
+  let near := ups up (in_tier (host_tier k) 0 rs) in
+  let far := if c_nlrf c then concat (map (fun i => ups up (in_tier (host_tier k) i rs)) (seq 1 (max_tier k))) else [] in
+  let offered := spec_ta up (host_tier k) (max_tier k) (c_nlrf c) rs (plists (s_pol s)) (Z.to_nat (pctr (s_pol s) + 2)) in
+  reps = C10.Spec.nts_natural_endpoints ltb (C10.Model.dc_of info) (C10.Model.rack_of info) dcs r t
+  /\ step c s (LPick n (pick_lookup ltb hostof m r t rs))
+    = Some (mkSys (s_pol s) (s_up s) ((n, ITA (ta_pick k (c_nlrf c) rs)) :: s_iters s), None)
+  /\ (exists st', yields (ta_step (c_nlrf c) up) (ta_pick k (c_nlrf c) rs, s_pol s) offered st'
+                  /\ forall up', ta_step (c_nlrf c) up' st' = (Nil, st'))
+  /\ exists rest, offered = near ++ far ++ rest
+       /\ tier_sorted (host_tier k) far /\ tier_sorted (host_tier k) rest
+       /\ (forall h, In h rest -> ~ In (hid h) (map hid (near ++ far)))
+       /\ only_up up offered /\ no_host_twice offered /\ complete up (concat (plists (s_pol s))) offered.
+Proof. exact nts_cassandra_replicas_first. Qed.
+Print Assumptions C11_nts_cassandra_replicas_first.
+
 (* ---- non-vacuity: the hypotheses are satisfiable by a concrete non-trivial history --------------------- *)
 (* rack-aware + token-aware + fallback; five hosts over three tiers, one of them down; replicas in tiers
    0, 1 and 2; the history contains operations, a removal, state changes, Picks and calls *)
@@ -237,4 +296,24 @@ Proof.
   split; [split; vm_compute; [discriminate | reflexivity]|].
   split; [repeat constructor; simpl; intuition discriminate|].
   split; [repeat constructor|]. split; [vm_compute; discriminate|]. vm_compute. reflexivity.
+Qed.
+
+(* non-vacuity of 14: a four-token Murmur3 ring over the hosts of the history above, RF 2, a token between the
+   first two ring tokens: Cassandra's endpoints are hosts 3 and 2, and after the history the policy offers
+   the local-rack one (2) first, then (fallback) 3, then the rest *)
+Definition ex_hostof (h : Z) : host :=
+  match h with 1 => eA | 2 => eB | 3 => eC | 4 => eD | _ => mkHost h 5 2 2 end.
+Definition ex_ring : list (Z * Z) := [(10, 1); (20, 3); (30, 2); (40, 4)].
+
+Example C11_compose_nonvacuous :
+  (forall h, hid (ex_hostof h) = h) /\ C10.Proofs1.sorted_toks Z.ltb ex_ring /\ ex_ring <> []
+  /\ C10.Spec.simple_natural_endpoints Z.ltb 2 ex_ring 15 = [3; 2]
+  /\ exists s outs, run ex_cfg (sys_init ex_cfg) ex_history = Some (s, outs)
+       /\ spec_ta (s_up s) (host_tier (c_kind ex_cfg)) 2 true (map ex_hostof [3; 2]) (plists (s_pol s)) (Z.to_nat (pctr (s_pol s) + 2))
+          = [eB; eC; eA; eE].
+Proof.
+  split; [intros h; unfold ex_hostof; repeat (destruct h as [|[h|h|]|]; try reflexivity)|].
+  split; [|split; [discriminate|split; [vm_compute; reflexivity|]]].
+  - unfold C10.Proofs1.sorted_toks. repeat constructor; reflexivity.
+  - eexists. eexists. split; vm_compute; reflexivity.
 Qed.
